@@ -760,9 +760,11 @@ class Analysis:
                 mod = self.t.classes[cls].module if cls in self.t.classes else None
                 px = self.t.pyx_of(mod, nm) if mod else None
                 if px:
-                    src = self.t.pyx[px]
-                    if _pyx_uses_rand(src):
+                    kind = _pyx_rand_kind(self.t.pyx[px], self.t.imports[mod][nm][1], len(e.args) + len(e.keywords))
+                    if kind == 'cRand':
                         self._add_rng(('cRand', px.split('.')[-1] + '.' + nm))
+                    elif kind == 'seeded':
+                        self._add_rng(('fresh', 'srand(seed) in ' + px.split('.')[-1] + '.' + nm))
                 elif mod:
                     r = self.t.resolve_function(mod, nm)
                     if r:
@@ -808,7 +810,8 @@ class Analysis:
                         if r:
                             out += self._func_rng(r[0], r[1], depth + 1)
                         px = self.t.pyx_of(mod, n.func.id)
-                        if px and _pyx_uses_rand(self.t.pyx[px]):
+                        if px and _pyx_rand_kind(self.t.pyx[px], self.t.imports[mod][n.func.id][1],
+                                                 len(n.args) + len(n.keywords)) == 'cRand':
                             out.append(('cRand', px.split('.')[-1] + '.' + n.func.id))
         self._func_rng_memo[key] = out
         return out
@@ -847,12 +850,13 @@ class Analysis:
 _PYX_RAND_MEMO = {}
 
 
-def _pyx_uses_rand(src):
-    """Does a .pyx source call the C library's rand()?  (Cython's parser; regex fallback)"""
+def _pyx_rand_info(src):
+    """Per function of a .pyx source: does it call the C library's rand(), does it call srand(), how many
+    parameters does it take.  (Cython's parser; regex fallback for the whole module under the key '*'.)"""
     key = hash(src)
     if key in _PYX_RAND_MEMO:
         return _PYX_RAND_MEMO[key]
-    res = False
+    info = {}
     try:
         from Cython.Compiler.TreeFragment import parse_from_strings
         tree = parse_from_strings('m', src)
@@ -866,17 +870,49 @@ def _pyx_uses_rand(src):
                 for x in (c if isinstance(c, list) else [c]):
                     if hasattr(x, 'child_attrs'):
                         yield from walk(x)
-        for n in walk(tree):
-            if type(n).__name__ in ('SimpleCallNode', 'GeneralCallNode'):
-                f = n.function
-                if type(f).__name__ == 'NameNode' and str(f.name) in ('rand', 'random', 'rand_r', 'drand48', 'lrand48'):
-                    res = True
-                    break
+        for fn in walk(tree):
+            if type(fn).__name__ not in ('DefNode', 'CFuncDefNode'):
+                continue
+            if type(fn).__name__ == 'DefNode':
+                name = str(fn.name)
+                nparams = len(fn.args)
+            else:
+                d = fn.declarator
+                nparams = len(getattr(d, 'args', []) or [])
+                while hasattr(d, 'base') and not getattr(d, 'name', None):
+                    d = d.base
+                name = str(getattr(d, 'name', '?'))
+            rec = {'rand': False, 'srand': False, 'nparams': nparams}
+            for n in walk(fn.body):
+                if type(n).__name__ in ('SimpleCallNode', 'GeneralCallNode'):
+                    f = n.function
+                    if type(f).__name__ == 'NameNode':
+                        if str(f.name) in ('rand', 'random', 'drand48', 'lrand48'):
+                            rec['rand'] = True
+                        if str(f.name) in ('srand', 'srandom', 'srand48'):
+                            rec['srand'] = True
+            info[name] = rec
     except Exception:
         import re
-        res = bool(re.search(r'(?<![A-Za-z0-9_.])rand\s*\(', src))
-    _PYX_RAND_MEMO[key] = res
-    return res
+        info['*'] = {'rand': bool(re.search(r'(?<![A-Za-z0-9_.])rand\s*\(', src)),
+                     'srand': bool(re.search(r'(?<![A-Za-z0-9_.])srand\s*\(', src)), 'nparams': 10 ** 6}
+    _PYX_RAND_MEMO[key] = info
+    return info
+
+
+def _pyx_rand_kind(src, fname, nargs):
+    """None: no C rand(); 'cRand': unseeded; 'seeded': the function re-seeds with srand() and the call passes all
+    its parameters (the seed included)."""
+    info = _pyx_rand_info(src)
+    rec = info.get(fname) or info.get('*')
+    if rec is None:
+        # a function we cannot find: be conservative if any function of the module draws from rand()
+        return 'cRand' if any(r['rand'] for r in info.values()) else None
+    if not rec['rand']:
+        return None
+    if rec['srand'] and nargs >= rec['nparams']:
+        return 'seeded'
+    return 'cRand'
 
 
 def estimator_classes(tree):
